@@ -405,7 +405,7 @@ func independentServerCheck(data []byte, sec bool, r srvRun) string {
 	if !strings.HasPrefix(m2, "GET ") {
 		return "second message is not a GET"
 	}
-	l1, l2 := strings.ToLower(m1), strings.ToLower(m2)
+	l1, l2 := asciiLower(m1), asciiLower(m2)
 	after := func(hay, lowHay, key, val string) bool {
 		// some header line named key (any case) is followed, within the message, by val
 		for from := 0; ; {
@@ -422,7 +422,7 @@ func independentServerCheck(data []byte, sec bool, r srvRun) string {
 	}
 	ok := false
 	for _, v := range socketace.SupportedProtocolVersions {
-		if after(m1, l1, strings.ToLower(socketace.AcceptsProtocolVersion), v) && after(m2, l2, "upgrade", "socketace/"+v) {
+		if after(m1, l1, asciiLower(socketace.AcceptsProtocolVersion), v) && after(m2, l2, "upgrade", "socketace/"+v) {
 			ok = true
 		}
 	}
@@ -433,6 +433,17 @@ func independentServerCheck(data []byte, sec bool, r srvRun) string {
 		return "no connection upgrade requested"
 	}
 	return ""
+}
+
+// asciiLower lower-cases A-Z only, byte for byte (indexes into the result are indexes into the input).
+func asciiLower(s string) string {
+	b := []byte(s)
+	for i, c := range b {
+		if c >= 'A' && c <= 'Z' {
+			b[i] = c + 32
+		}
+	}
+	return string(b)
 }
 
 func blockEnd(s string) int {
